@@ -2,7 +2,7 @@
 import ast
 import copy
 import re
-from typing import List, Tuple, Union, cast
+from typing import List, Optional, Tuple, Union, cast
 
 from func_adl.ast.call_stack import argument_stack, stack_frame
 from func_adl.ast.func_adl_ast_utils import (
@@ -41,6 +41,17 @@ def reserve_arg_names(a: ast.AST):
             argument_var_counter = max(argument_var_counter, int(m.group(1)) + 1)
 
 
+def _all_parameters(a: ast.arguments) -> List[ast.arg]:
+    "Every parameter of a lambda, whatever its kind"
+    return (
+        a.posonlyargs
+        + a.args
+        + ([a.vararg] if a.vararg else [])
+        + a.kwonlyargs
+        + ([a.kwarg] if a.kwarg else [])
+    )
+
+
 def make_args_unique(a: ast.Lambda) -> ast.Lambda:
     """
     Replaces the lambda with a new lambda, with unique arguments names
@@ -59,23 +70,30 @@ def make_args_unique(a: ast.Lambda) -> ast.Lambda:
             self._seen_lambda = False
 
         def visit_Lambda(self, node: ast.Lambda) -> ast.Lambda:
+            # Default values are evaluated in the enclosing scope.
+            node.args.defaults = [self.visit(d) for d in node.args.defaults]
+            node.args.kw_defaults = [
+                self.visit(d) if d is not None else None for d in node.args.kw_defaults
+            ]
+
             if self._seen_lambda:
-                mapping = [(a.arg, a.arg) for a in node.args.args]
+                renamed = []
+                mapping = [(p.arg, p.arg) for p in _all_parameters(node.args)]
             else:
-                mapping = [(a.arg, arg_name()) for a in node.args.args]
+                renamed = [(a.arg, arg_name()) for a in node.args.args]
+                plain = {id(a) for a in node.args.args}
+                mapping = renamed + [
+                    (p.arg, p.arg) for p in _all_parameters(node.args) if id(p) not in plain
+                ]
                 self._seen_lambda = True
 
-            for old, new in mapping:
-                self._arg_stack.append((old, new))
+            self._arg_stack.extend(mapping)
+            node.body = self.visit(node.body)
+            del self._arg_stack[len(self._arg_stack) - len(mapping) :]
 
-            r = self.generic_visit(node)
-            assert isinstance(r, ast.Lambda)
-
-            r.args.args = [ast.arg(arg=new, annotation=None) for old, new in mapping]
-            for arg in node.args.args:
-                self._arg_stack.pop()
-
-            return r
+            if len(renamed) > 0:
+                node.args.args = [ast.arg(arg=new, annotation=None) for old, new in renamed]
+            return node
 
         def visit_Name(self, node: ast.Name) -> ast.Name:
             for n in reversed(self._arg_stack):
@@ -84,6 +102,31 @@ def make_args_unique(a: ast.Lambda) -> ast.Lambda:
             return node
 
     return replace_args().visit(copy.deepcopy(a))
+
+
+def _bind_called_lambda(
+    func: ast.Lambda, call: ast.Call
+) -> Optional[List[Tuple[str, ast.expr]]]:
+    """Match the arguments of a call of a lambda to its parameters the way python does,
+    filling in defaults. None if this is not a complete, plain binding."""
+    a = func.args
+    if a.vararg or a.kwarg or a.kwonlyargs or a.posonlyargs:
+        return None
+    names = [p.arg for p in a.args]
+    if len(call.args) > len(names) or any(isinstance(x, ast.Starred) for x in call.args):
+        return None
+    bound = dict(zip(names, call.args))
+    for k in call.keywords:
+        if k.arg is None or k.arg not in names or k.arg in bound:
+            return None
+        bound[k.arg] = k.value
+    defaults = dict(zip(names[len(names) - len(a.defaults) :], a.defaults))
+    for name in names:
+        if name not in bound:
+            if name not in defaults:
+                return None
+            bound[name] = defaults[name]
+    return [(name, bound[name]) for name in names]
 
 
 def convolute(ast_g: ast.Lambda, ast_f: ast.Lambda):
@@ -448,8 +491,11 @@ class simplify_chained_calls(FuncADLNodeTransformer):
         Also, if this is a First() call, then move the call inside it.
         """
         if type(call_node.func) is ast.Lambda:
-            arg_asts = [self.visit(a) for a in call_node.args]
-            kw_asts = [(k.arg, self.visit(k.value)) for k in call_node.keywords]
+            bound = _bind_called_lambda(call_node.func, call_node)
+            if bound is None:
+                # Not a call we can evaluate here (`*args`, a missing argument, ...): leave it.
+                return self.generic_visit(call_node)
+            arg_asts = [(name, self.visit(value)) for name, value in bound]
             # The parameters get fresh names first: a name that is free in an argument must not
             # be taken for a parameter of the same spelling when the result is visited again.
             func = make_args_unique(call_node.func)
@@ -457,11 +503,8 @@ class simplify_chained_calls(FuncADLNodeTransformer):
                 old.arg: new.arg for old, new in zip(call_node.func.args.args, func.args.args)
             }
             with stack_frame(self._arg_stack):
-                for a_name, arg in zip(func.args.args, arg_asts):
-                    self._arg_stack.define_name(a_name.arg, arg)
-                for k_name, arg in kw_asts:
-                    if k_name is not None:
-                        self._arg_stack.define_name(fresh.get(k_name, k_name), arg)
+                for name, arg in arg_asts:
+                    self._arg_stack.define_name(fresh[name], arg)
                 # Now, evaluate the expression, and then lift it.
                 return self.visit(func.body)
         elif _is_method_call_on_first(call_node):
@@ -477,7 +520,16 @@ class simplify_chained_calls(FuncADLNodeTransformer):
         """
         a = node.args
         if a.vararg or a.kwarg or a.kwonlyargs or a.posonlyargs or a.defaults or a.kw_defaults:
-            return self.generic_visit(node)
+            # Its parameters keep their names (they can be passed by keyword); they still hide
+            # outer names, and the default values belong to the enclosing scope.
+            new_args = copy.copy(a)
+            new_args.defaults = [self.visit(d) for d in a.defaults]
+            new_args.kw_defaults = [self.visit(d) if d is not None else None for d in a.kw_defaults]
+            with stack_frame(self._arg_stack):
+                for p in _all_parameters(a):
+                    self._arg_stack.define_name(p.arg, ast.Name(p.arg, ast.Load()))
+                new_body = self.visit(node.body)
+            return ast.Lambda(args=new_args, body=new_body)
 
         new_names = [(arg.arg, arg_name()) for arg in a.args]
         with stack_frame(self._arg_stack):
